@@ -208,7 +208,16 @@ func (c *controller) convergeBalancer(l log.Logger, key string, svc *v1.Service)
 	// is to program the data plane.
 	lbIngressIPs := []v1.LoadBalancerIngress{}
 	for _, lbIP := range lbIPs {
-		lbIngressIPs = append(lbIngressIPs, v1.LoadBalancerIngress{IP: lbIP.String()})
+		ingress := v1.LoadBalancerIngress{IP: lbIP.String()}
+		// Keep the ipMode recorded for an address that is already published
+		// (the API server defaults it): dropping it would make every
+		// reconciliation of a converged service look like a status change.
+		for _, cur := range svc.Status.LoadBalancer.Ingress {
+			if cur.IP == ingress.IP {
+				ingress.IPMode = cur.IPMode
+			}
+		}
+		lbIngressIPs = append(lbIngressIPs, ingress)
 	}
 	svc.Status.LoadBalancer.Ingress = lbIngressIPs
 	if svc.Annotations == nil {
